@@ -96,6 +96,18 @@ def make_ls_freq_harness(test, admittance, add_c, add_l, n_rc, n_f):
         if test == "complex":
             for i in range(n_f):
                 eng.check(same(Z1.flat[i], Z2.flat[i]), "rescaled circuit has the same immittance at the rescaled frequency")
+        # impedance scaling: the variables scale by c (impedance) or 1/c (admittance) and the circuit obtained
+        # from them has c times the impedance
+        c = eng.real("c", npy=True)
+        eng.assume(c > 0)
+        lam = (1 / c) if admittance else c
+        g3 = ut._generate_circuit(tarr, add_c, add_l, admittance)
+        ls._update_circuit(g3, mk_array(eng, [x * lam for x in xs]), add_c, add_l, admittance)
+        if test == "complex":
+            Z3 = g3.get_impedances(farr)
+            for i in range(n_f):
+                eng.check(same(Z3.flat[i], Z1.flat[i] * c), "the circuit of the rescaled variables has c times the impedance",
+                          lambda: "point %d: %r vs %r" % (i, Z3.flat[i], Z1.flat[i] * c))
         # time constants rescale inversely
         e1 = [e for e in g1.get_elements() if "tau" in e.get_values()]
         e2 = [e for e in g2.get_elements() if "tau" in e.get_values()]
@@ -189,6 +201,39 @@ def make_mi_harness(admittance, add_c, n_rc, n_f):
     return harness
 
 
+def make_taus_harness(n_f, n_rc):
+    """the time constants depend on the set of angular frequencies only (not on their order) and the first one
+    is 1/(w_max * F_ext)"""
+    def harness(eng):
+        import pyimpspec.analysis.kramers_kronig.utility as ut
+        from sx.shims import PI
+        from sx.values import s_and, s_or
+        eng.div_zero_policy = "assume"
+        fs = _freqs(eng, n_f)
+        lf = eng.real("log_F_ext", npy=False)
+        eng.assume(lf >= -1)
+        eng.assume(lf <= 1)
+        if eng.symbolic:
+            w = 2 * PI * mk_array(eng, fs)
+            wr = 2 * PI * mk_array(eng, list(reversed(fs)))
+        else:
+            import numpy as np
+            w = 2 * np.pi * mk_array(eng, fs)
+            wr = 2 * np.pi * mk_array(eng, list(reversed(fs)))
+        t = ut._generate_time_constants(w, n_rc, lf)
+        tr = ut._generate_time_constants(wr, n_rc, lf)
+        _nonvacuous(eng)
+        a, b, c_, d = t[0], t[-1], tr[0], tr[-1]
+        if eng.symbolic:
+            ok = s_or(s_and(same(a, c_), same(b, d)), s_and(same(a, d), same(b, c_)))
+        else:
+            import numpy as np
+            ok = (np.isclose(a, c_, rtol=1e-9) and np.isclose(b, d, rtol=1e-9)) or (np.isclose(a, d, rtol=1e-9) and np.isclose(b, c_, rtol=1e-9))
+        eng.check(ok, "the range of time constants does not depend on the point order",
+                  lambda: "(%r, %r) vs reversed input (%r, %r)" % (a, b, c_, d))
+    return harness
+
+
 def make_stats_harness(n_f):
     def harness(eng):
         import pyimpspec.analysis.utility as au
@@ -256,6 +301,9 @@ def obligations(tier: str):
                                   bounds="matrix inversion: scaled matrices under c*Z and (s*w, tau/s); num_RC=%d, %d frequencies" % (n_rc, n_f),
                                   functions=[mi._generate_A_matrices, mi._scale_A_matrices], expect_reach=["non-vacuous"], mode="fresh",
                                   query_timeout_ms=60000))
+    obs.append(Obligation("taus", make_taus_harness(n_f + 1, 3), bounds="_generate_time_constants on %d angular frequencies in either order, log F_ext in [-1, 1], num_RC = 3" % (n_f + 1),
+                          functions=[ut._generate_time_constants], expect_reach=["non-vacuous"], mode="fresh",
+                          stubs=["log10 and 10**x are uninterpreted: equal arguments give equal time constants; a difference is confirmed numerically by the replay"]))
     obs.append(Obligation("stats", make_stats_harness(n_f), bounds="residuals, Boukamp weight, pseudo chi-squared, noise estimate; %d points" % n_f,
                           functions=[au._calculate_residuals, au._calculate_pseudo_chisqr, au._boukamp_weight, ut._boukamp_weight,
                                      ut._estimate_pct_noise, ut._estimate_pseudo_chisqr], expect_reach=["non-vacuous"], mode="fresh"))
@@ -279,6 +327,19 @@ OUTSIDE = ["conditioning; the F_ext search and the choice of num_RC; the cnls im
 
 
 def replay(obligation: str, witness):
+    if obligation == "taus":
+        from sx.concrete import run_concrete
+        w = dict(witness)
+        if w.get("log_F_ext") in (None, 0, "0"):
+            w["log_F_ext"] = "1/2"
+        for ob in obligations("quick"):
+            if ob.name == "taus":
+                reproduced, msg, _ = run_concrete(ob.harness, w)
+                return reproduced, msg
+    return _replay_numeric(obligation, witness)
+
+
+def _replay_numeric(obligation: str, witness):
     """numerical confirmation on the plain library: run the public test on a mock spectrum and on its
     rescaled / reversed counterpart and compare pseudo chi-squared"""
     import numpy as np
@@ -293,7 +354,7 @@ def replay(obligation: str, witness):
     worst = 0.0
     try:
         base = perform_kramers_kronig_test(DataSet(f, Z), test=test + impl, num_RC=8, admittance=admittance, num_F_ext_evaluations=0, add_capacitance=True, add_inductance=True)
-        for c, s in ((1e3, 1.0), (1.0, 1e2), (1e-2, 1e-2)):
+        for c, s in ((1e3, 1.0), (1.0, 1e2), (1e-2, 1e-2), (1e6, 1.0), (1e-6, 1.0), (1.0, 1e6), (1.0, 1e-6)):
             other = perform_kramers_kronig_test(DataSet(f * s, Z * c), test=test + impl, num_RC=8, admittance=admittance, num_F_ext_evaluations=0, add_capacitance=True, add_inductance=True)
             worst = max(worst, abs(other.pseudo_chisqr - base.pseudo_chisqr) / base.pseudo_chisqr)
     except Exception as e:
